@@ -52,7 +52,7 @@ CLAIMED = {
             "spellings are never re-cased. Tied through genprobe (the real convert_case / snakify / from_str) exhaustively over all identifiers up to "
             "length 6 (thorough 8) over {a,b,A,B,1,_} by digest, plus a dictionary and derive-level enums under all 16 style strings.",
             "heck 0.5.0 is modelled over ASCII bytes (Model/Heck.v, tied by the exhaustive sweep) and over all scalar values parametric in the character database (Model/HeckU.v; C07u_words_spec / C07u_style / C07u_table_disjoint / C07u_ascii_instance / C07u_camel_not_mixed), the latter instantiated on every run with the table Rust's own char methods print for the characters in play. Identifiers containing U+03A3 (final sigma): Rust-vs-Rust differential against a reference written on heck itself (outside the proof).", TECH, "DESIGN.md §7 C07"),
-    "C08": ("C08_count_iter / C08_names_length / C08_array / C08_no_disabled_positions: COUNT = number of iterated values; VariantNames and "
+    "C08": ("C08_count_iter / C08_names_length / C08_array / C08_no_disabled_positions / C08_four_agree: COUNT = number of iterated values; VariantNames and "
             "VariantArray have one entry per declared variant in declaration order; with no disabled variant all four lists have the same length and "
             "position i denotes the same variant — for every definition. " + TIE, "As C03 / C04.", TECH, "DESIGN.md §7 C08"),
     "C09": ("C09_mirror / C09_from_agree / C09_name_vis: the generated discriminant item has the same variant names, order, explicit discriminants and "
